@@ -1,13 +1,14 @@
 // Correspondence harness for C11 (no request observes state left over from an earlier request).
 //
 // Three kinds of cases:
-//   fields : the flattened field paths of RequestCtx obtained by reflection (tie with the model's list)
-//   reset  : every field of a real object is made non-zero, the real Reset function is called, and the
-//            harness reports which fields are zero afterwards
-//   hist   : request histories over 1-3 connections on one real Server; the handler takes a digest of
-//            everything observable, then scribbles on every field; each served request is then sent
-//            alone to a new Server with the same configuration (reference); the connection's deadline
-//            calls are logged
+//
+//	fields : the flattened field paths of RequestCtx obtained by reflection (tie with the model's list)
+//	reset  : every field of a real object is made non-zero, the real Reset function is called, and the
+//	         harness reports which fields are zero afterwards
+//	hist   : request histories over 1-3 connections on one real Server; the handler takes a digest of
+//	         everything observable, then scribbles on every field; each served request is then sent
+//	         alone to a new Server with the same configuration (reference); the connection's deadline
+//	         calls are logged
 package main
 
 import (
@@ -244,14 +245,14 @@ var resetKinds = map[string]struct {
 	coq, prefix string
 	call        func(ctx *fasthttp.RequestCtx)
 }{
-	"ctx":          {"KCtxReset", "", func(ctx *fasthttp.RequestCtx) { fasthttp.VerifC11CtxReset(ctx) }},
-	"request":      {"KRequestReset", "Request", func(ctx *fasthttp.RequestCtx) { ctx.Request.Reset() }},
-	"response":     {"KResponseReset", "Response", func(ctx *fasthttp.RequestCtx) { ctx.Response.Reset() }},
-	"reqskiphdr":   {"KRequestResetSkipHeader", "Request", func(ctx *fasthttp.RequestCtx) { fasthttp.VerifC11RequestResetSkipHeader(&ctx.Request) }},
-	"reqheader":    {"KRequestHeaderReset", "Request.Header", func(ctx *fasthttp.RequestCtx) { ctx.Request.Header.Reset() }},
-	"respheader":   {"KResponseHeaderReset", "Response.Header", func(ctx *fasthttp.RequestCtx) { ctx.Response.Header.Reset() }},
-	"uri":          {"KURIReset", "Request.uri", func(ctx *fasthttp.RequestCtx) { ctx.Request.URI().Reset() }},
-	"args":         {"KArgsReset", "Request.postArgs", func(ctx *fasthttp.RequestCtx) { ctx.Request.PostArgs().Reset() }},
+	"ctx":        {"KCtxReset", "", func(ctx *fasthttp.RequestCtx) { fasthttp.VerifC11CtxReset(ctx) }},
+	"request":    {"KRequestReset", "Request", func(ctx *fasthttp.RequestCtx) { ctx.Request.Reset() }},
+	"response":   {"KResponseReset", "Response", func(ctx *fasthttp.RequestCtx) { ctx.Response.Reset() }},
+	"reqskiphdr": {"KRequestResetSkipHeader", "Request", func(ctx *fasthttp.RequestCtx) { fasthttp.VerifC11RequestResetSkipHeader(&ctx.Request) }},
+	"reqheader":  {"KRequestHeaderReset", "Request.Header", func(ctx *fasthttp.RequestCtx) { ctx.Request.Header.Reset() }},
+	"respheader": {"KResponseHeaderReset", "Response.Header", func(ctx *fasthttp.RequestCtx) { ctx.Response.Header.Reset() }},
+	"uri":        {"KURIReset", "Request.uri", func(ctx *fasthttp.RequestCtx) { ctx.Request.URI().Reset() }},
+	"args":       {"KArgsReset", "Request.postArgs", func(ctx *fasthttp.RequestCtx) { ctx.Request.PostArgs().Reset() }},
 }
 
 func runReset(kind string) hlib.Case {
@@ -468,13 +469,16 @@ func cls(t time.Time) int {
 	}
 	return int(time.Until(t).Seconds() + 0.5)
 }
-func (c *lconn) Read(p []byte) (int, error)        { return c.r.Read(p) }
-func (c *lconn) Write(p []byte) (int, error)       { return c.w.Write(p) }
-func (c *lconn) Close() error                      { return nil }
-func (c *lconn) LocalAddr() net.Addr               { return &net.TCPAddr{IP: net.IPv4(127, 0, 0, 1), Port: 80} }
-func (c *lconn) RemoteAddr() net.Addr              { return &net.TCPAddr{IP: net.IPv4(127, 0, 0, 1), Port: 4000} }
-func (c *lconn) SetDeadline(t time.Time) error     { c.log = append(c.log, "LD"); return nil }
-func (c *lconn) SetReadDeadline(t time.Time) error { c.log = append(c.log, fmt.Sprintf("(LR %d)", cls(t))); return nil }
+func (c *lconn) Read(p []byte) (int, error)    { return c.r.Read(p) }
+func (c *lconn) Write(p []byte) (int, error)   { return c.w.Write(p) }
+func (c *lconn) Close() error                  { return nil }
+func (c *lconn) LocalAddr() net.Addr           { return &net.TCPAddr{IP: net.IPv4(127, 0, 0, 1), Port: 80} }
+func (c *lconn) RemoteAddr() net.Addr          { return &net.TCPAddr{IP: net.IPv4(127, 0, 0, 1), Port: 4000} }
+func (c *lconn) SetDeadline(t time.Time) error { c.log = append(c.log, "LD"); return nil }
+func (c *lconn) SetReadDeadline(t time.Time) error {
+	c.log = append(c.log, fmt.Sprintf("(LR %d)", cls(t)))
+	return nil
+}
 func (c *lconn) SetWriteDeadline(t time.Time) error {
 	c.log = append(c.log, fmt.Sprintf("(LW %d)", cls(t)))
 	return nil
@@ -899,7 +903,7 @@ func gen(r *rand.Rand, i int) desc {
 }
 
 func corpus() []desc {
-	c := []desc{{Op: "fields"}, {Op: "written"}}
+	c := []desc{{Op: "fields"}, {Op: "written"}, {Op: "rsfields"}, {Op: "rsrelease"}, {Op: "rsacquire"}, {Op: "rshygiene"}, {Op: "rsacquire"}}
 	for k := range resetKinds {
 		c = append(c, desc{Op: "reset", Kind: k})
 	}
@@ -983,8 +987,132 @@ func runWritten() hlib.Case {
 	return hlib.Case{Coq: hlib.App("CWritten", hlib.List(names)), Kind: "written", Sig: "written", Size: len(names)}
 }
 
+// rsClean: the hidden state of the request's body stream, if it is a pooled requestStream, is that of a new object
+func rsClean(ctx *fasthttp.RequestCtx) bool {
+	st := ctx.RequestBodyStream()
+	if st == nil {
+		return true
+	}
+	v := reflect.ValueOf(st)
+	if v.Kind() != reflect.Ptr || v.Elem().Kind() != reflect.Struct || v.Elem().Type().Name() != "requestStream" {
+		return true
+	}
+	e := v.Elem()
+	for _, n := range []string{"totalBytesRead", "chunkLeft", "eof", "err"} {
+		f := e.FieldByName(n)
+		if !f.IsValid() {
+			panic("requestStream has no field " + n)
+		}
+		if !f.IsZero() {
+			return false
+		}
+	}
+	return true
+}
+
+// runRsHygiene abandons streamed bodies in many states and then looks at the stream objects later requests get.
+func runRsHygiene() hlib.Case {
+	var clean []string
+	var mode string
+	s := &fasthttp.Server{StreamRequestBody: true, MaxRequestBodySize: 100000, Logger: nullLogger{}}
+	s.Handler = func(ctx *fasthttp.RequestCtx) {
+		if string(ctx.Path()) == "/probe" {
+			clean = append(clean, hlib.Bool(rsClean(ctx)))
+			return
+		}
+		st := ctx.RequestBodyStream()
+		buf := make([]byte, 1<<16)
+		switch mode {
+		case "partial-detach":
+			io.ReadFull(st, buf[:10])     //nolint:errcheck
+			ctx.Request.CloseBodyStream() //nolint:errcheck
+		case "partial-resetbody":
+			io.ReadFull(st, buf[:10]) //nolint:errcheck
+			ctx.Request.ResetBody()
+		case "readall", "cut", "badchunk":
+			io.ReadAll(st) //nolint:errcheck
+		case "partial", "partialcut":
+			io.ReadFull(st, buf[:10]) //nolint:errcheck
+		case "hijack":
+			io.ReadFull(st, buf[:10]) //nolint:errcheck
+			ctx.Hijack(func(c net.Conn) {})
+		case "body":
+			ctx.Request.Body()
+		}
+	}
+	chunk := func(n int) string { return fmt.Sprintf("%x\r\n%s\r\n", n, strings.Repeat("d", n)) }
+	chunkedReq := "POST /a HTTP/1.1\r\nHost: x\r\nTransfer-Encoding: chunked\r\n\r\n" + chunk(100) + chunk(50) + "0\r\n\r\n"
+	fixedReq := "POST /a HTTP/1.1\r\nHost: x\r\nContent-Length: 9000\r\n\r\n" + strings.Repeat("f", 9000)
+	probes := "POST /probe HTTP/1.1\r\nHost: x\r\nTransfer-Encoding: chunked\r\n\r\n" + chunk(20) + "0\r\n\r\n" +
+		"POST /probe HTTP/1.1\r\nHost: x\r\nContent-Length: 30\r\n\r\n" + strings.Repeat("p", 30)
+	serve := func(in string) {
+		s.ServeConn(&lconn{r: bytes.NewReader([]byte(in))}) //nolint:errcheck
+		time.Sleep(2 * time.Millisecond)                    // a hijack handler releases its ctx asynchronously
+	}
+	for round := 0; round < 2; round++ {
+		for _, m := range []string{"readall", "partial", "partial-detach", "partial-resetbody", "hijack", "body", "cut", "partialcut", "badchunk"} {
+			mode = m
+			for _, base := range []string{chunkedReq, fixedReq} {
+				in := base
+				switch m {
+				case "cut", "partialcut":
+					in = base[:len(base)/2] // the peer goes away in the middle of a chunk / of the body
+				case "badchunk":
+					in = strings.Replace(base, strings.Repeat("d", 100)+"\r\n", strings.Repeat("d", 100)+"XY", 1)
+				}
+				serve(in)          // the connection that abandons its stream
+				serve(probes)      // another connection
+				serve(in + probes) // and the same connection where it is kept alive
+			}
+		}
+	}
+	return hlib.Case{Coq: hlib.App("CRsHygiene", hlib.List(clean)), Kind: "reset", Sig: "rshygiene", Size: len(clean)}
+}
+
+func rsFlags(names []string, zero []bool) string {
+	type nz struct {
+		n string
+		z bool
+	}
+	var l []nz
+	for i := range names {
+		l = append(l, nz{"requestStream." + names[i], zero[i]})
+	}
+	sort.Slice(l, func(i, j int) bool { return l[i].n < l[j].n })
+	var flags []string
+	for _, x := range l {
+		flags = append(flags, hlib.Tuple(strconv.Quote(x.n), hlib.Bool(x.z)))
+	}
+	return hlib.List(flags)
+}
+
+// the pooled requestStream object (shared by all requests of all connections)
+func runRs(op string) hlib.Case {
+	switch op {
+	case "rsfields":
+		var q []string
+		for _, n := range fasthttp.VerifC11RequestStreamFields() {
+			q = append(q, "requestStream."+n)
+		}
+		sort.Strings(q)
+		for i := range q {
+			q[i] = strconv.Quote(q[i])
+		}
+		return hlib.Case{Coq: hlib.App("CRsFields", hlib.List(q)), Kind: "fields", Sig: "rsfields", Size: len(q)}
+	case "rsrelease":
+		n, z := fasthttp.VerifC11RequestStreamRelease()
+		return hlib.Case{Coq: hlib.App("CReset", "KRsRelease", rsFlags(n, z)), Kind: "reset", Sig: "reset-rsrelease", Size: len(n)}
+	}
+	n, z := fasthttp.VerifC11RequestStreamAcquire()
+	return hlib.Case{Coq: hlib.App("CRsAcquire", rsFlags(n, z)), Kind: "reset", Sig: "rsacquire", Size: len(n)}
+}
+
 func run(d desc) hlib.Case {
 	switch d.Op {
+	case "rsfields", "rsrelease", "rsacquire":
+		return runRs(d.Op)
+	case "rshygiene":
+		return runRsHygiene()
 	case "written":
 		return runWritten()
 	case "fields":
